@@ -2393,6 +2393,12 @@ class Array:
         if not isinstance(other, Array) or not np.isscalar(prefactor):
             raise ValueError(f'wrong argument types: {type(prefactor)!r}, {type(other)!r}')
         self.ibinary_blockwise(np.add, other.__mul__(prefactor))
+        if prefactor != 0.0:
+            # `other` might have no blocks: still convert to the common type as the Cython version does
+            calc_dtype = np.result_type(self.dtype, other.dtype, prefactor)
+            if self.dtype != calc_dtype:
+                self.dtype = calc_dtype
+                self._data = [d.astype(calc_dtype) for d in self._data]
         return self
 
     @use_cython(replacement='Array_iscale_prefactor')
